@@ -39,12 +39,17 @@ type rres struct {
 	why string
 }
 
-func ok(v any) rres             { return rres{k: rOK, val: v} }
-func mustErr(why string) rres   { return rres{k: rErr, why: why} }
-func unspec(why string) rres    { return rres{k: rUnspec, why: why} }
-func (r rres) String() string   { return [...]string{"ok", "err", "unspec"}[r.k] + ":" + r.why }
-func isNum(v any) bool          { _, a := v.(int64); _, b := v.(float64); return a || b }
-func boolPtrVal(b *bool) string { if b == nil { return "nil" }; return fmt.Sprint(*b) }
+func ok(v any) rres           { return rres{k: rOK, val: v} }
+func mustErr(why string) rres { return rres{k: rErr, why: why} }
+func unspec(why string) rres  { return rres{k: rUnspec, why: why} }
+func (r rres) String() string { return [...]string{"ok", "err", "unspec"}[r.k] + ":" + r.why }
+func isNum(v any) bool        { _, a := v.(int64); _, b := v.(float64); return a || b }
+func boolPtrVal(b *bool) string {
+	if b == nil {
+		return "nil"
+	}
+	return fmt.Sprint(*b)
+}
 
 // Expected-value wrappers understood by sameJSON.
 type approx struct { // number within relative tolerance
